@@ -18,7 +18,7 @@ RULE = ("E1: columns X,P,Q with declared domains; data = every multiset of rows 
         "the LRU ScoreCache (4 keys, max_size 1..3) against an OrderedDict reference (values, size bound, LRU order, miss "
         "count). non-trivial = distinct (data, variable, parents) with >=1 unobserved parent configuration or an unseen "
         "declared state; distinct cache states")
-BOUNDS = {"quick": "domains (3,2,2) and (2,3,2): all multisets of <=3 rows (454 each) + 12 dense sets; declared-unseen states on 60 sets; cache depth 5",
+BOUNDS = {"quick": "domains (3,2,2) and (2,3,2): all multisets of <=3 rows (454 each) + 12 dense sets; declared-unseen states on 60 sets; cache depth 5; four columns (2,3,2,2): 18 data sets x 7 scores x every child x three parents in 3 orders + 2 pairs",
           "thorough": "multisets of <=4 rows (1819 per domain), third domain (3,3,2); cache depth 7"}
 EXHAUSTIVE = {"quick": True, "thorough": True}
 ASSUMPTIONS = ["BDs as defined by Scutari (2016): hyper-parameters spread over the observed parent configurations",
@@ -49,11 +49,84 @@ def groups(tier, seed):
         out.append({"part": "scores", "dom": list(dom), "sets": [list(s) for s in sets[(seed % step)::step][:60]], "extra": True})
     for ms in (1, 2, 3):
         out.append({"part": "cache", "max_size": ms, "depth": 5 if tier == "quick" else 7})
+    # three parents (four columns of different cardinalities), every parent order
+    for di in range(len(data4())):
+        for extra in (False, True):
+            out.append({"part": "scores4", "data": di, "extra": extra})
     return out
 
 
+COLS4 = ["X", "P", "Q", "R"]
+DOM4 = (2, 3, 2, 2)
+
+
+def data4():
+    rows = list(product(*[range(c) for c in DOM4]))
+    out = []
+    for a, b in product(range(1, 6), range(0, 3)):
+        out.append([rows[(a * i + b * (i // 3) + (i * i) // 5) % len(rows)] for i in range(6 + 3 * a)])
+    out += [[rows[0], rows[23]], [rows[5]], [rows[1], rows[1], rows[14]]]
+    return out
+
+
+def _scores4(st, g):
+    import pandas as pd
+
+    data = data4()[g["data"]]
+    df = pd.DataFrame(data, columns=COLS4)
+    ddom = DOM4
+    state_names = None
+    if g["extra"]:
+        ddom = tuple(c + 1 for c in DOM4)
+        state_names = {c: list(range(ddom[i])) for i, c in enumerate(COLS4)}
+    else:
+        obs = [sorted({r[i] for r in data}) for i in range(4)]
+        remap = [{s: k for k, s in enumerate(o)} for o in obs]
+        data = [tuple(remap[i][r[i]] for i in range(4)) for r in data]
+        ddom = tuple(len(o) for o in obs)
+    st.states += 1
+    for name, ess in SCORES:
+        base = {"g": g, "score": name, "ess": ess}
+        try:
+            sc = mk_scorer(name, df, ess, state_names)
+        except Exception as ex:
+            st.violation(name + ".__init__", "exception", dict(base, site=name + ".__init__"), repr(ex)[:200])
+            continue
+        for v in COLS4:
+            others = [c for c in COLS4 if c != v]
+            for pa in (others, others[::-1], others[1:] + others[:1], others[:2], others[1:]):
+                exp = ref_local(name, data, v, pa, ddom, ess, COLS4)
+                case = dict(base, site=name + ".local_score", var=v, parents=pa)
+                N = counts(data, v, pa, ddom, COLS4)
+                st.evals += 1
+                st.transitions += 1
+                st.nt((g["data"], g["extra"], v, tuple(pa)))
+                try:
+                    got = float(sc.local_score(v, pa))
+                except Exception as ex:
+                    st.violation(name + ".local_score", "exception", case, repr(ex)[:200])
+                    continue
+                st.compared += 1
+                if not (abs(got - exp) <= 1e-8 * max(1.0, abs(exp))):
+                    N_obs = sum(1 for n in N.values() if sum(n) > 0)
+                    f12c = None
+                    if name == "bds":
+                        lg = math.lgamma
+                        r_, q_, qo = ddom[COLS4.index(v)], len(N), N_obs
+                        a_, b_ = ess / qo, ess / (q_ * r_)
+                        obs_n = [n for n in N.values() if sum(n) > 0]
+                        f12c = (sum(lg(x + b_) for n in obs_n for x in n) + (q_ - qo) * r_ * lg(b_)
+                                - sum(lg(sum(n) + a_) for n in obs_n) - (q_ - qo) * lg(a_) + qo * lg(a_) - q_ * r_ * lg(b_))
+                    st.violation(name + ".local_score", "wrong-score", case, got, exp,
+                                 detail={"q": len(N), "q_obs": N_obs, "r": ddom[COLS4.index(v)], "diff": got - exp,
+                                         "f12c_model_match": bool(f12c is not None and N_obs < len(N) and abs(got - f12c) <= 1e-8 * max(1.0, abs(f12c))),
+                                         "unseen_child_states": sum(1 for k in range(ddom[COLS4.index(v)]) if all(n[k] == 0 for n in N.values()))})
+                else:
+                    st.outcome(round(exp, 6))
+
+
 # ------------------------------------------------------------------ reference
-def counts(data, var, parents, dom):
+def counts(data, var, parents, dom, COLS=COLS):
     """N[j][k] for every parent configuration j (declared) and state k (declared)"""
     vi = COLS.index(var)
     pis = [COLS.index(p) for p in parents]
@@ -65,8 +138,8 @@ def counts(data, var, parents, dom):
     return N
 
 
-def ref_local(name, data, var, parents, dom, ess=10.0):
-    N = counts(data, var, parents, dom)
+def ref_local(name, data, var, parents, dom, ess=10.0, COLS=COLS):
+    N = counts(data, var, parents, dom, COLS)
     r = dom[COLS.index(var)]
     q = len(N)
     lg = math.lgamma
@@ -133,6 +206,9 @@ def run_group(g, tier):
     if g["part"] == "cache":
         _cache(st, g)
         return st
+    if g["part"] == "scores4":
+        _scores4(st, g)
+        return st
     for s in g["sets"]:
         _scores(st, g["dom"], s, g["extra"])
     return st
@@ -142,6 +218,10 @@ def replay(case):
     st = Stats()
     if case.get("part") == "cache":
         _cache(st, case["g"], only=case["history"])
+    elif "g" in case and case["g"].get("part") == "scores4":
+        _scores4(st, case["g"])
+        st.violations = [v for v in st.violations if v["case"].get("var") == case.get("var") and v["case"].get("parents") == case.get("parents")
+                         and v["site"] == case["site"] and v["case"].get("score") == case.get("score") and v["case"].get("ess") == case.get("ess")]
     else:
         _scores(st, case["dom"], case["set"], case["extra"], only=(case["score"], case["ess"]))
         st.violations = [v for v in st.violations if v["case"].get("var") == case.get("var") and v["case"].get("parents") == case.get("parents")
